@@ -58,6 +58,9 @@ pub struct Names {
     /// per worker: the last cell write it performed in the current API call:
     /// (container, index appended, identity replaced, content replaced, content installed)
     last_write: HashMap<usize, (usize, usize, String, u64, u64)>,
+    /// per worker: the current API call went through the node list (first use of the crate on
+    /// this thread, or the call that wraps the transaction counter): lock-free only
+    list_path: HashMap<usize, bool>,
 }
 
 pub static NAMES: Mutex<Option<Names>> = Mutex::new(None);
@@ -215,6 +218,9 @@ fn after_hook(e: &Event, val: usize, ok: bool) {
     };
     let line = names(|n| {
         let site = site_label(n, e);
+        if site.starts_with("list.rs:Node::") {
+            n.list_path.insert(w, true);
+        }
         // a node that is being linked is named at first sight
         if e.addr == n.head && matches!(e.op, AOp::CompareExchange | AOp::CompareExchangeWeak) {
             node_name(n, e.arg2);
@@ -429,9 +435,15 @@ where
     macro_rules! cont { ($i:expr) => {{ let mut r = lock(&sh.regs); let x = if $i < r.c.len() { r.c[$i].clone() } else { None }; if x.is_some() { r.busy[$i] += 1; } x }}; }
     macro_rules! done { ($i:expr) => {{ let mut r = lock(&sh.regs); r.busy[$i] -= 1; }}; }
     let i0_of = |c: usize| names(|n| n.hist.get(&c).map(|h| h.len().saturating_sub(1)).unwrap_or(0));
+    names(|n| n.list_path.insert(w, false));
     let load_steps = |what: &str| {
         let s = sched::api_steps();
+        if names(|n| n.list_path.get(&w).copied().unwrap_or(false)) {
+            stat(sh, "loads_via_node_list", 1, false);
+            return;
+        }
         stat(sh, &format!("max_steps_{}", what), s as u64, true);
+        stat(sh, "loads_checked_against_bound", 1, false);
         if s > sh.load_bound {
             violation(format!("wait-freedom: {} took {} steps of its own (bound {})", what, s, sh.load_bound));
         }
@@ -780,6 +792,7 @@ where
         n.fields.clear();
         n.hist.clear();
         n.last_write.clear();
+        n.list_path.clear();
         n.head = verif::list_head_addr();
     });
     verif::set_hooks(Some(before_hook), Some(after_hook));
